@@ -228,6 +228,10 @@ func TestC02(t *testing.T) {
 			err = gcCheck(v, copyNames(nm), b)
 			r.Label("gc-between-writes")
 		}
+		if err == nil && rapid.IntRange(0, 19).Draw(rt, "nested") == 0 {
+			err = nestedEncode(v, v, copyNames(nm), b)
+			r.Label("another-encoder-between-writes")
+		}
 		r.Label("names:" + mode)
 		r.Label("shape:" + shape[:indexOrLen(shape, ':')])
 		r.ExcludedMap(g.Avoided)
